@@ -604,6 +604,15 @@ KERNEL_GROUPS['KernelsLift'] = [
     ('uint_range.py', 'UIntRange.overlaps', 'k_range_overlaps', 'range'),
     ('uint_range.py', 'UIntRange.intersect', 'k_range_intersect', 'range'),
     ('uint_range.py', 'UIntRange.offset', 'k_range_offset', 'range'),
+    # the codon of an exon, clamped to it (Exon.get_codon / get_codon_at), with what it calls
+    ('utils.py', 'get_codon_offset_complement', 'kl_codon_offset_complement', None),
+    ('exon.py', 'Exon.compl_frame', 'kl_exon_compl_frame', 'exon'),
+    ('exon.py', 'Exon.cds_prefix_length', 'kl_exon_cds_prefix_length', 'exon'),
+    ('exon.py', 'Exon.get_first_codon_start', 'kl_exon_first_codon_start', 'exon'),
+    ('exon.py', 'Exon.get_codon_index_at', 'kl_exon_codon_index_at', 'exon'),
+    ('exon.py', 'get_codon_range', 'kl_get_codon_range', None),
+    ('exon.py', 'Exon.get_codon', 'k_exon_get_codon', 'exon'),
+    ('exon.py', 'Exon.get_codon_at', 'k_exon_get_codon_at', 'exon'),
 ]
 KERNEL_EXTRA_SOURCES = {'KernelsMave': ['enums.py'], 'KernelsNames': ['enums.py', 'constants.py'], 'KernelsLift': ['enums.py']}
 KERNEL_CONSTS = {'KernelsNames': ('REVCOMP_OLIGO_NAME_SUFFIX',)}
